@@ -13,6 +13,8 @@ use std::time::{Duration, Instant};
 #[derive(Clone, Default, Debug)]
 pub struct World { pub files: Vec<(String, Vec<u8>)>, pub env: Vec<(String, String)>, pub stdin: Vec<u8> }
 
+impl World { pub fn file_bytes(&self, p: &str) -> Option<Vec<u8>> { self.files.iter().find(|(n, _)| n == p).map(|(_, b)| b.clone()) } }
+
 #[derive(Clone, Debug, Default)]
 pub struct CliObs { pub exit: Option<i32>, pub signal: bool, pub timed_out: bool, pub stdout: Vec<u8>, pub stderr: String, pub files: Vec<(String, Vec<u8>)> }
 impl CliObs {
@@ -95,6 +97,19 @@ pub fn run_kestrel_tty(w: &World, args: &[String], timeout_s: u64) -> CliObs { r
 pub fn run_kestrel_opts(w: &World, args: &[String], tty_stdin: bool, timeout_s: u64) -> CliObs { run_cmd(&bin(), w, args, tty_stdin, timeout_s, false) }
 
 pub fn run_cmd(program: &str, w: &World, args: &[String], tty_stdin: bool, timeout_s: u64, discard_stdout: bool) -> CliObs {
+    let a: Vec<std::ffi::OsString> = args.iter().map(std::ffi::OsString::from).collect();
+    run_cmd_os(program, w, &a, &[], tty_stdin, timeout_s, discard_stdout)
+}
+
+/// arguments and extra environment values as raw bytes (they need not be UTF-8)
+pub fn run_kestrel_raw(w: &World, args: &[Vec<u8>], env_raw: &[(&str, Vec<u8>)]) -> CliObs {
+    use std::os::unix::ffi::OsStringExt;
+    let a: Vec<std::ffi::OsString> = args.iter().map(|b| std::ffi::OsString::from_vec(b.clone())).collect();
+    let e: Vec<(std::ffi::OsString, std::ffi::OsString)> = env_raw.iter().map(|(k, v)| (std::ffi::OsString::from(*k), std::ffi::OsString::from_vec(v.clone()))).collect();
+    run_cmd_os(&bin(), w, &a, &e, false, 30, false)
+}
+
+pub fn run_cmd_os(program: &str, w: &World, args: &[std::ffi::OsString], env_os: &[(std::ffi::OsString, std::ffi::OsString)], tty_stdin: bool, timeout_s: u64, discard_stdout: bool) -> CliObs {
     let dir = format!("/verif/.cache/tmp/{}-{}", std::process::id(), COUNTER.fetch_add(1, Ordering::SeqCst));
     let _ = std::fs::remove_dir_all(&dir);
     std::fs::create_dir_all(&dir).expect("scratch dir");
@@ -104,6 +119,7 @@ pub fn run_cmd(program: &str, w: &World, args: &[String], tty_stdin: bool, timeo
     let pty = if tty_stdin { open_pty() } else { None };
     match &pty { Some((_, slave)) => { cmd.stdin(Stdio::from(slave.try_clone().expect("dup pty"))); } None => { cmd.stdin(Stdio::piped()); } }
     for (k, v) in &w.env { cmd.env(k, v); }
+    for (k, v) in env_os { cmd.env(k, v); }
     // no controlling terminal: password prompts must fail instead of waiting for a human
     unsafe { use std::os::unix::process::CommandExt; cmd.pre_exec(|| { libc::setsid(); Ok(()) }); }
     let mut obs = CliObs::default();
